@@ -247,14 +247,16 @@ pub struct GenOpts {
     pub spaced_unit_text: bool,
     /// components written inside text-mode steps (they stay text, with a documented warning each)
     pub text_mode_components: bool,
+    /// `>> [mode]: steps`-like entries written where MODES is certainly off: they are plain metadata there
+    pub bracket_keys_plain: bool,
 }
 
 impl GenOpts {
     pub fn canonical() -> Self {
-        GenOpts { extended: false, core: true, max_sections: 3, max_blocks: 4, max_items: 7, timers_need_time: false, mix_ref_classes: false, spaced_unit_text: true, text_mode_components: true }
+        GenOpts { extended: false, core: true, max_sections: 3, max_blocks: 4, max_items: 7, timers_need_time: false, mix_ref_classes: false, spaced_unit_text: true, text_mode_components: true, bracket_keys_plain: true }
     }
     pub fn extended() -> Self {
-        GenOpts { extended: true, core: false, max_sections: 3, max_blocks: 4, max_items: 7, timers_need_time: true, mix_ref_classes: false, spaced_unit_text: false, text_mode_components: true }
+        GenOpts { extended: true, core: false, max_sections: 3, max_blocks: 4, max_items: 7, timers_need_time: true, mix_ref_classes: false, spaced_unit_text: false, text_mode_components: true, bracket_keys_plain: false }
     }
     /// extended, with references free to change the quantity class (not warning-free)
     pub fn extended_mixed() -> Self {
@@ -262,7 +264,7 @@ impl GenOpts {
     }
     /// the subset C02 calls core syntax
     pub fn core() -> Self {
-        GenOpts { extended: false, core: true, max_sections: 3, max_blocks: 4, max_items: 7, timers_need_time: true, mix_ref_classes: false, spaced_unit_text: false, text_mode_components: true }
+        GenOpts { extended: false, core: true, max_sections: 3, max_blocks: 4, max_items: 7, timers_need_time: true, mix_ref_classes: false, spaced_unit_text: false, text_mode_components: true, bracket_keys_plain: false }
     }
 }
 
@@ -762,13 +764,17 @@ pub fn gen_spec(rng: &mut Rng, o: &GenOpts) -> Spec {
         for b in 0..nb {
             match g.rng.below(12) {
                 0 | 1 if arrow_meta => {
-                    let key = if g.rng.chance(1, 4) {
+                    let key = if o.bracket_keys_plain && !o.extended && g.rng.chance(1, 6) {
+                        vec![g.rng.pick(&["[mode]", "[duplicate]", "[define]", "[mode]"]).to_string()]
+                    } else if g.rng.chance(1, 4) {
                         vec![g.rng.pick(&["servings", "servings", "serves", "yield"]).to_string()]
                     } else {
                         g.rng.pick(META_KEYS).split(' ').map(|s| s.to_string()).collect()
                     };
                     let value = if matches!(key[0].as_str(), "servings" | "serves" | "yield") {
                         vec![g.rng.pick(&["2", "4", "2|4|8", "12", "4|2", "6|3|12", "10|5"]).to_string()]
+                    } else if key[0].starts_with('[') {
+                        vec![g.rng.pick(&["ref", "steps", "components", "text", "new", "reference", "ingredients"]).to_string()]
                     } else {
                         words(g.rng, TEXT_WORDS, 1, 3)
                     };
@@ -1453,8 +1459,12 @@ impl<'a> Sp<'a> {
                     let src_start = self.out.len();
                     let save_mask = self.mask;
                     if self.mode == 3 {
-                        self.mask &= !(feat::WRAP_NAME | feat::WRAP_NOTE | feat::WRAP_UNIT | feat::WRAP_QTY | feat::WRAP_TEXTVAL);
+                        // a line comment before a line break inside the source of a text-mode component: under CRLF the
+                        // comment token takes the `\r` with it, which the reference semantics does not model (white space
+                        // only; C17's T2 puts comments there)
+                        self.mask &= !feat::LINE_COMMENT;
                     }
+
                     let (name, alias, q, note) = self.component_src(c, next_safe);
                     self.mask = save_mask;
                     if self.mode == 3 {
@@ -1467,6 +1477,9 @@ impl<'a> Sp<'a> {
                             at = b;
                         }
                         src.push_str(&self.out[at..]);
+                        // a line break inside the component's source stays as the file has it (LF or CRLF): marked here,
+                        // resolved when the line endings of the whole text are decided
+                        let src = src.replace('\n', "\u{1}");
                         pending.push_str(&src);
                         text_mode_src.push_str(&src);
                         self.constructs.push(if c.note.is_some() { "text_mode_component_with_note" } else { "text_mode_component" });
@@ -1637,7 +1650,7 @@ impl<'a> Sp<'a> {
                 None => self.reject = Some("bad servings".into()),
             }
         }
-        self.constructs.push("arrow_metadata");
+        self.constructs.push(if key.starts_with('[') { "bracketed_key_as_plain_metadata" } else { "arrow_metadata" });
     }
 
     fn front_matter(&mut self, f: &[(String, FrontVal)]) {
@@ -1813,10 +1826,23 @@ pub fn spell(spec: &Spec, seed: u64, mask: u32, level: u32) -> Spelled {
         }
     }
     let mut text = std::mem::take(&mut s.out);
-    if s.opt(feat::CRLF, 1, 4) && !text.contains('\\') {
+    let raw_break = if s.opt(feat::CRLF, 1, 4) && !text.contains('\\') {
         text = text.replace('\n', "\r\n");
+        "\r\n"
     } else {
         s.used &= !feat::CRLF;
+        "\n"
+    };
+    fn resolve_breaks(v: &mut J, with: &str) {
+        match v {
+            J::String(t) if t.contains('\u{1}') => *t = t.replace('\u{1}', with),
+            J::Array(a) => a.iter_mut().for_each(|x| resolve_breaks(x, with)),
+            J::Object(o) => o.values_mut().for_each(|x| resolve_breaks(x, with)),
+            _ => {}
+        }
+    }
+    for sec in s.sections.iter_mut() {
+        resolve_breaks(sec, raw_break);
     }
     let expected = if s.reject.is_some() {
         None
